@@ -6,7 +6,7 @@ EXTENDS MC_FuncResults, IOUtils
 Trace == ndJsonDeserialize(IOEnv.TRACE)
 VARIABLES l, bad
 
-Conjuncts == {"C14_Terminates", "C14_NoPanic", "C14_DeclaredN", "C14_OneListPerResult", "C14_NonEmpty", "C14_Assignable", "C14_SameOnEveryCall", "C14_LiteralsExact"}
+Conjuncts == {"C14_Terminates", "C14_NoPanic", "C14_DeclaredN", "C14_OneListPerResult", "C14_NonEmpty", "C14_Assignable", "C14_SameOnEveryCall", "C14_LiteralsExact", "C14_OnlyPossible"}
 
 Holds(c, r) ==
     LET o == r.obs
@@ -19,6 +19,8 @@ Holds(c, r) ==
          [] c = "C14_Assignable"       -> ~done \/ o.not_assignable = <<>>
          (* ... asked twice in a row, and once more after every other function of every loaded package has been asked *)
          [] c = "C14_SameOnEveryCall"  -> ~done \/ (o.again_equal /\ o.later_equal)
+         (* "only possible results": a function that returns an expression over a constant of its own reports that value *)
+         [] c = "C14_OnlyPossible"     -> ~done \/ r.case.shape \notin {"localconst", "localconststr"} \/ o.alts = LocalConst(r.case.shape, r.case.idx)
          [] c = "C14_LiteralsExact"    -> ~done \/ r.case.shape \notin DOMAIN LiteralOnly \/ o.alts = LiteralOnly[r.case.shape]
 
 Failed(r) == {c \in Conjuncts : ~Holds(c, r)}
